@@ -159,10 +159,15 @@ impl Scenario for C05 {
         p.set("dec", if rng.chance(1, 2) { 0 } else { 1 + rng.below(9) as i64 });
         plan_transport(&mut rng, &mut p, true);
         if rng.chance(1, 8) {
-            // the other entry points: from_str (for the UTF-8 flavours) and from_bytes
-            p.set("t", if rng.chance(1, 2) { crate::transport::T_FROM_STR } else { crate::transport::T_FROM_BYTES });
+            // the other entry points: from_str (for the UTF-8 flavours), from_bytes, from_path on a regular file and on
+            // a pipe opened by path (a "file" whose metadata reports length 0)
+            p.set("t", *rng.pick(&[crate::transport::T_FROM_STR, crate::transport::T_FROM_BYTES, crate::transport::T_FROM_STR, crate::transport::T_FROM_BYTES, crate::transport::T_FROM_PATH, crate::transport::T_FROM_PATH_PIPE]));
             p.sched.clear();
             p.eintr.clear();
+        }
+        if rng.chance(1, 10) {
+            // handlers that decode something else while they are being called (the stub recorder only)
+            p.set("nest", 1 + rng.below(7) as i64);
         }
         p
     }
@@ -172,9 +177,14 @@ impl Scenario for C05 {
         let mut dev = SimReader::new(data, &plan.sched, tail, &plan.eintr, None).record_boundaries();
         let which = plan.get("dec").rem_euclid(10);
         st.inc(if which == 0 { "handlers.stub-recorder" } else { "handlers.real-decoder-behind-probe" });
-        let real = if plan.get("t") == crate::transport::T_FROM_STR || plan.get("t") == crate::transport::T_FROM_BYTES {
+        use crate::transport::{T_FROM_BYTES, T_FROM_PATH, T_FROM_PATH_PIPE, T_FROM_STR};
+        let nest = plan.get("nest");
+        let real = if which == 0 && nest > 0 {
+            st.inc("handlers.reentrant-recorder");
+            nested::run(data, nest, &plan.sched, tail, &plan.eintr)
+        } else if [T_FROM_STR, T_FROM_BYTES, T_FROM_PATH, T_FROM_PATH_PIPE].contains(&plan.get("t")) {
             st.inc(crate::transport::transport_name(plan.get("t")));
-            entry_point(which, data, plan.get("t") == crate::transport::T_FROM_STR)
+            entry_point(which, data, plan.get("t"), plan.idx, st)
         } else if plan.get("t") == T_BUFREADER {
             st.inc(crate::transport::transport_name(T_BUFREADER));
             st.inc("fired.R6-std-BufReader-composition");
@@ -199,7 +209,8 @@ impl Scenario for C05 {
             h.str(l);
         }
         st.outcome = h.finish() ^ real.version as u64;
-        compare(&real, &model, data)
+        compare(&real, &model, data)?;
+        regroup_check(which, data, &model, st)
     }
     fn nontrivial(&self, plan: &Plan) -> bool {
         plan.data.iter().filter(|b| **b == b'\n').count() >= 2
@@ -231,30 +242,193 @@ fn deliveries<R: std::io::BufRead>(which: i64, r: R) -> std::io::Result<Rec> {
     })
 }
 
-/// The same through `rosu_map::from_str` (when the bytes are UTF-8) / `rosu_map::from_bytes`.
-fn entry_point(which: i64, data: &[u8], as_str: bool) -> std::io::Result<Rec> {
+/// What a decoder returns is fixed by which lines reach which of its parsers: a decoder that only listens to some
+/// sections must return the same value for the file and for the file reduced to the deliveries of those sections (in
+/// delivery order, headers re-emitted on every switch, explicit version line) — the REAL decoder, no probe in between,
+/// so that anything the driver decides per decoder type is included.
+fn regroup_check(which: i64, data: &[u8], model: &Routed, st: &mut Stats) -> Result<(), Violation> {
+    use crate::probe::{from_bytes_fp, Dec};
+    let (dec, listens): (Dec, &[&str]) = match which {
+        2 => (Dec::General, &["General"]),
+        3 => (Dec::Editor, &["Editor"]),
+        4 => (Dec::Metadata, &["Metadata"]),
+        5 => (Dec::Difficulty, &["Difficulty"]),
+        6 => (Dec::Events, &["Events"]),
+        7 => (Dec::Colors, &["Colours"]),
+        8 => (Dec::TimingPoints, &["General", "TimingPoints"]),
+        _ => return Ok(()),
+    };
+    let mut text = format!("osu file format v{}\n", model.version);
+    let mut cur = "";
+    let mut kept = Vec::new();
+    for (sec, line, _) in &model.log {
+        if !listens.contains(sec) {
+            continue;
+        }
+        if *sec != cur {
+            text.push_str(&format!("[{sec}]\n"));
+            cur = sec;
+        }
+        text.push_str(line);
+        text.push('\n');
+        kept.push((*sec, line.clone()));
+    }
+    // precondition (reference router only): the reduced text delivers exactly the kept lines
+    let again = crate::models::router::route_text(&text);
+    if again.version != model.version || again.log.len() != kept.len() || again.log.iter().zip(&kept).any(|(a, b)| a.0 != b.0 || a.1 != b.1) {
+        st.inc("probe.regroup-not-expressible");
+        return Ok(());
+    }
+    st.inc("ops.regroup-differential");
+    let a = from_bytes_fp(dec, data).map_err(|e| e.kind());
+    let b = from_bytes_fp(dec, text.as_bytes()).map_err(|e| e.kind());
+    if a != b {
+        return Err(Violation::new(
+            "C05/result-not-determined-by-deliveries",
+            dec.name(),
+            format!("decode::<{}> of the file gives {a:?}; of the same deliveries for sections {listens:?} written out as a plain file it gives {b:?}\n reduced file: {text:?}", dec.name()),
+        ));
+    }
+    Ok(())
+}
+
+/// Handlers that themselves decode: a stub recorder whose parse callbacks run a nested decode (of a fixed small text,
+/// through from_str / from_bytes / decode on a simulated reader) every `nest`-th delivered line. The nested result must
+/// be what the same call gives at top level, and the outer delivery history must still equal the reference router's.
+mod nested {
+    use crate::probe::{section_name, Never, Rec};
+    use crate::simio::SimReader;
+    use rosu_map::section::Section;
+    use rosu_map::{DecodeBeatmap, DecodeState};
+    use std::cell::Cell;
+
+    pub const INNER: &str = "osu file format v9\n\n[Metadata]\nTitle: inner // c\n[Difficulty]\nCircleSize: 4.5\n[Metadata]\nCreator:me\n";
+    thread_local! {
+        static EVERY: Cell<i64> = const { Cell::new(0) };
+        static BAD: Cell<u32> = const { Cell::new(0) };
+        static WANT: std::cell::RefCell<[String; 3]> = const { std::cell::RefCell::new([String::new(), String::new(), String::new()]) };
+    }
+    pub struct NRec(Rec);
+    pub struct NState {
+        rec: Rec,
+        n: i64,
+    }
+    impl DecodeState for NState {
+        fn create(version: i32) -> Self {
+            NState { rec: Rec { version, log: vec![] }, n: 0 }
+        }
+    }
+    impl From<NState> for NRec {
+        fn from(s: NState) -> Self {
+            NRec(s.rec)
+        }
+    }
+    /// one nested decode, rendered; at top level (before the outer decode starts) this gives the expected rendering
+    fn inner(k: i64) -> String {
+        match k.rem_euclid(3) {
+            0 => format!("{:?}", rosu_map::from_str::<rosu_map::section::metadata::Metadata>(INNER).map_err(|e| e.kind())),
+            1 => format!("{:?}", rosu_map::from_bytes::<Rec>(INNER.as_bytes()).map_err(|e| e.kind())),
+            _ => {
+                let mut dev = SimReader::new(INNER.as_bytes(), &[3, 1, 7], 0, &[1, 4], None);
+                format!("{:?}", rosu_map::section::difficulty::Difficulty::decode(&mut dev).map_err(|e| e.kind()))
+            }
+        }
+    }
+    fn inner_ok(k: i64) -> bool {
+        let got = inner(k);
+        WANT.with(|w| w.borrow()[k.rem_euclid(3) as usize] == got)
+    }
+    macro_rules! nrec {
+        ($($f:ident => $s:ident),*) => { $(
+            fn $f(state: &mut NState, line: &str) -> Result<(), Never> {
+                state.rec.log.push((section_name(Section::$s), line.to_owned()));
+                state.n += 1;
+                let every = EVERY.with(|e| e.get());
+                if every > 0 && state.n % every == 0 && !inner_ok(state.n / every) {
+                    BAD.with(|b| b.set(b.get() + 1));
+                }
+                Ok(())
+            }
+        )* }
+    }
+    impl DecodeBeatmap for NRec {
+        type Error = Never;
+        type State = NState;
+        nrec!(parse_general => General, parse_editor => Editor, parse_metadata => Metadata, parse_difficulty => Difficulty, parse_events => Events,
+             parse_timing_points => TimingPoints, parse_colors => Colors, parse_hit_objects => HitObjects, parse_variables => Variables,
+             parse_catch_the_beat => CatchTheBeat, parse_mania => Mania);
+    }
+    pub fn run(data: &[u8], every: i64, sched: &[u32], tail: usize, eintr: &[u32]) -> std::io::Result<Rec> {
+        WANT.with(|w| *w.borrow_mut() = [inner(0), inner(1), inner(2)]);
+        EVERY.with(|e| e.set(every));
+        BAD.with(|b| b.set(0));
+        let mut dev = SimReader::new(data, sched, tail, eintr, None);
+        let r = NRec::decode(&mut dev);
+        EVERY.with(|e| e.set(0));
+        let bad = BAD.with(|b| b.get());
+        let r = r?;
+        if bad > 0 {
+            return Err(std::io::Error::new(std::io::ErrorKind::Other, format!("{bad} nested decode(s) started from inside a handler returned something else than at top level")));
+        }
+        Ok(r.0)
+    }
+}
+
+/// The same through `rosu_map::from_str` (when the bytes are UTF-8) / `rosu_map::from_bytes` / `rosu_map::from_path`.
+fn entry_point(which: i64, data: &[u8], t: i64, idx: u64, st: &mut Stats) -> std::io::Result<Rec> {
     use crate::probe::Probe;
     use rosu_map::section::{colors::Colors, difficulty::Difficulty, editor::Editor, events::Events, general::General, hit_objects::HitObjects, metadata::Metadata, timing_points::TimingPoints};
     fn conv<D: DecodeBeatmap>(p: Probe<D>) -> Rec {
         Rec { version: p.version, log: p.log.into_iter().map(|(s, l, _)| (s, l)).collect() }
     }
-    fn go<D: DecodeBeatmap>(data: &[u8], as_str: bool) -> std::io::Result<D> {
+    let as_str = (t, idx, std::cell::RefCell::new(st));
+    fn go<D: DecodeBeatmap>(data: &[u8], ctx: &(i64, u64, std::cell::RefCell<&mut Stats>)) -> std::io::Result<D> {
+        use crate::transport::{T_FROM_PATH, T_FROM_PATH_PIPE, T_FROM_STR};
+        let (t, idx) = (ctx.0, ctx.1);
+        if t == T_FROM_PATH {
+            let dir = crate::transport::tmp_dir();
+            let _ = std::fs::create_dir_all(&dir);
+            let path = dir.join(format!("c05-{:?}-{idx}.osu", std::thread::current().id()));
+            if std::fs::write(&path, data).is_ok() {
+                let r = rosu_map::from_path::<D>(&path);
+                let _ = std::fs::remove_file(&path);
+                return r;
+            }
+            ctx.2.borrow_mut().inc("realfs.tempfile-write-failed");
+            return rosu_map::from_bytes::<D>(data);
+        }
+        if t == T_FROM_PATH_PIPE && data.len() <= 60_000 {
+            use std::io::Write as _;
+            use std::os::fd::AsRawFd;
+            if let Ok((rd, mut wr)) = std::io::pipe() {
+                let ok = wr.write_all(data).is_ok();
+                drop(wr);
+                let path = format!("/proc/self/fd/{}", rd.as_raw_fd());
+                if ok && std::path::Path::new(&path).exists() {
+                    let r = rosu_map::from_path::<D>(&path);
+                    drop(rd);
+                    return r;
+                }
+            }
+            ctx.2.borrow_mut().inc("realfs.pipe-unavailable");
+            return rosu_map::from_bytes::<D>(data);
+        }
         match std::str::from_utf8(data) {
-            Ok(s) if as_str => rosu_map::from_str::<D>(s),
+            Ok(s) if t == T_FROM_STR => rosu_map::from_str::<D>(s),
             _ => rosu_map::from_bytes::<D>(data),
         }
     }
     Ok(match which {
-        1 => conv(go::<Probe<rosu_map::Beatmap>>(data, as_str)?),
-        2 => conv(go::<Probe<General>>(data, as_str)?),
-        3 => conv(go::<Probe<Editor>>(data, as_str)?),
-        4 => conv(go::<Probe<Metadata>>(data, as_str)?),
-        5 => conv(go::<Probe<Difficulty>>(data, as_str)?),
-        6 => conv(go::<Probe<Events>>(data, as_str)?),
-        7 => conv(go::<Probe<Colors>>(data, as_str)?),
-        8 => conv(go::<Probe<TimingPoints>>(data, as_str)?),
-        9 => conv(go::<Probe<HitObjects>>(data, as_str)?),
-        _ => go::<Rec>(data, as_str)?,
+        1 => conv(go::<Probe<rosu_map::Beatmap>>(data, &as_str)?),
+        2 => conv(go::<Probe<General>>(data, &as_str)?),
+        3 => conv(go::<Probe<Editor>>(data, &as_str)?),
+        4 => conv(go::<Probe<Metadata>>(data, &as_str)?),
+        5 => conv(go::<Probe<Difficulty>>(data, &as_str)?),
+        6 => conv(go::<Probe<Events>>(data, &as_str)?),
+        7 => conv(go::<Probe<Colors>>(data, &as_str)?),
+        8 => conv(go::<Probe<TimingPoints>>(data, &as_str)?),
+        9 => conv(go::<Probe<HitObjects>>(data, &as_str)?),
+        _ => go::<Rec>(data, &as_str)?,
     })
 }
 
